@@ -135,7 +135,7 @@ Section Session.
     intros HC SZ. assert (HC' := HC). apply core_split in HC'. destruct HC' as [HC0 _].
     destruct (held_of_core _ _ _ _ HC0) as [HH HE]. destruct (equity_core _ _ _ _ _ HC) as (v & V & E).
     rewrite HH in *. unfold sizer_of in SZ. rewrite HE in SZ.
-    apply (rebalance_agree sp NDW (st_hold st) snap st (pf_total_equity pf) v target eq_refl V E). exact SZ.
+    apply (rebalance_agree_fixed sp NDW (st_hold st) snap st (pf_total_equity pf) v target eq_refl V E). exact SZ.
   Qed.
 
   (** * One event *)
